@@ -12,7 +12,7 @@
        keeping its last value after the loop and its previous value when the range is empty;
      - basic slices `a[lo:hi, j]` with Python's clamping of the bounds ([slice_bound]);
      - IEEE specials: a float is a rational, +inf, -inf or NaN ([fl]); comparisons with NaN
-       are false, inf - inf = NaN, ...; integers are unbounded (the widths i2 / i8 / f4 / f8
+       are false, inf - inf = NaN, ...; integers are unbounded (the widths i2 / i4 / i8 / f4 / f8
        of the dtypes are recorded in the tree but do not change the evaluation);
      - numeric promotion: int op int is an int, anything else is a float.
 
@@ -190,9 +190,9 @@ Definition py_range (a b s : Z) : list Z :=
 
 (* ---------------------------------------------------------------- syntax *)
 
-Inductive dtype := F64 | F32 | I16 | I64.
+Inductive dtype := F64 | F32 | I16 | I32 | I64.
 Definition dzero (d : dtype) : val :=
-  match d with F64 | F32 => VFlt (Fin 0) | I16 | I64 => VInt 0 end.
+  match d with F64 | F32 => VFlt (Fin 0) | I16 | I32 | I64 => VInt 0 end.
 
 Inductive expr :=
 | EInt (z : Z)
